@@ -2,6 +2,7 @@ import TracklibVerif.Model.Graph
 import TracklibVerif.Model.GraphPD
 import TracklibVerif.Model.GraphSession
 import TracklibVerif.Model.GraphAStar
+import TracklibVerif.Model.GraphShared
 import TracklibVerif.Drv.Util
 /-! Driver handler for C06 (network shortest distances), weights in `Rat` (exact stream) or `Float`
 (commands prefixed with `f`: weights, cut-offs and results are IEEE-754 bit patterns, the same model definitions instantiated at `Float`).
@@ -32,7 +33,13 @@ A graph is `<n> <edges>`: nodes `0..n-1`, edges `id,src,tgt,w,ori` separated by 
                                          `<n>;<E>,<N>,<U>;…` (bound on node ids, then the ENU coordinates of node 0 … n-1); `<ops>` = `;`-separated
                                          `<k>:<op>` with `<op>` = `c` (`Network()`: object `k` is created, `k` = number of objects so far) ·
                                          `m,<mode>` setRoutingMethod · `w,<weight>` setAStarWeight · `u` · any `sess` call; replies as for `sess`.
-                                         In the exact stream every distance between two nodes of a network must be rational (else `bad-request`). -/
+                                         In the exact stream every distance between two nodes of a network must be rational (else `bad-request`).
+  fam <n> <ops>                        → several `Network` objects that share their `Node` objects (`Model/GraphShared.lean`: one store of routing
+                                         flags, each search resets its own network's nodes only and runs the loop with the explicit priority_dict).
+                                         `<ops>` = `;`-separated `<k>:<op>` with `<op>` = `c` (`Network()` on the common node pool) · `x,<s>,<cut>`
+                                         (`sub_network(s, cut)` whose result becomes the next member) · `W,<edge id>,<w>` (`edge.weight = w` on that `Edge` object, `<k>` ignored)
+                                         · `u` · any `sess` call; replies as for `sess`
+                                         (`x` answers like `s`); a call on a member that does not exist answers `err`. -/
 namespace TV.Drv.C06
 open TV.Graph TV.Drv
 
@@ -229,6 +236,41 @@ def sessRun (n : Nat) (σ : Sess Rat) : List String → Option (List String)
         let r := exec σ o
         (sessRun n r.1 rest).map (showOut n r.2 :: ·)
 
+/-! several `Network` objects on one pool of `Node` objects (`Model/GraphShared.lean`) -/
+
+def famRun (n : Nat) (F : Fam Rat) : List String → Option (List String)
+  | [] => some []
+  | tokn :: rest =>
+    match tokn.splitOn ":" with
+    | [k, op] =>
+      match k.toNat? with
+      | none => none
+      | some k =>
+        if op == "c" then (famRun n (execFam F .create).1 rest).map ("ok" :: ·)
+        else if op == "u" then
+          (famRun n F rest).map (s!"t:{showTable n ((F.nets[k]?.map (·.udict)).getD Table.empty)}" :: ·)
+        else
+          match splitTok op ',' with
+          | ["x", a, c] =>
+            match a.toNat?, cut? c with
+            | some a, some c =>
+              let r := execFam F (.extract k a c)
+              (famRun n r.1 rest).map (showOut n r.2 :: ·)
+            | _, _ => none
+          | ["W", i, w] =>
+            match i.toNat?, rat? w with
+            | some i, some w =>
+              let r := execFam F (.setWeight i w)
+              (famRun n r.1 rest).map (showOut n r.2 :: ·)
+            | _, _ => none
+          | _ =>
+            match op? op with
+            | none => none
+            | some o =>
+              let r := execFam F (.on k o)
+              (famRun n r.1 rest).map (showOut n r.2 :: ·)
+    | _ => none
+
 /-! several `Network` objects, each with its routing settings (`Model/GraphAStar.lean`) -/
 section world
 variable {W : Type} (pw : String → Option W) (sw : W → String) (sqrt : W → W) (okPos : List (Pos W) → Bool)
@@ -365,6 +407,13 @@ def handle (cmd : String) (args : List String) : String :=
     match n.toNat? with
     | some n =>
       match sessRun n (Sess.new n) (splitTok ops ';') with
+      | some out => joinWith ";" out
+      | none => "bad-request"
+    | none => "bad-request"
+  | "fam", [n, ops] =>
+    match n.toNat? with
+    | some n =>
+      match famRun n (Fam.new n) (splitTok ops ';') with
       | some out => joinWith ";" out
       | none => "bad-request"
     | none => "bad-request"
